@@ -181,6 +181,41 @@ def build_groups(rng, tier):
         for s_, _k in singles:
             cases.append({"line": s_, "meta": {"shape": None, "nq": 1, "special": special, "oob": _k in bad_set}})
         groups.append((base, base + 1, [(base + 2 + j, k_) for j, (_s, k_) in enumerate(singles)], gen.shape_size(trailing), nq, (bad_pos, bad_set) if bad_pos is not None else None))
+    # periodic, extrapolating splines queried inside and outside the range through the static rank-1 fast path, every element also
+    # through interp(): ordinary axes not starting at 0 and axes whose first knot lies far from the others, so that a wrap
+    # `(x - x0) rem P + x0` applied to an in-range query is visibly not the identity (seed C09-r5m1); f64 and f32
+    for _ in range(gen.N(tier, 30, 500)):
+        S = rng.choice(["F", "F", "G"])
+        rd = (lambda v: v) if S == "F" else vlib.f32_round
+        n = rng.choice([4, 5, 6])
+        if rng.random() < 0.5:
+            far = 1e16 if S == "F" else 1000.0
+            step = rng.choice([1.0, 0.25]) if S == "F" else 1e-4
+            xs = [-far] + [rd(i * step) for i in range(n - 2)] + [far]
+            lo, hi = xs[1], xs[-2]
+        else:
+            xs = gen.axis_f(rng, n, rng.choice(["random", "uniform"])) if S == "F" else sorted({rd(rng.uniform(0.1, 9)) for _ in range(3 * n)})[:n]
+            lo, hi = xs[0], xs[-1]
+        if len(xs) < n or any(not a < b for a, b in zip(xs, xs[1:])):
+            continue
+        trailing = rng.choice([[], [], [2]])
+        L = gen.shape_size(trailing)
+        flat = [rd(rng.uniform(-3, 3)) for _ in range(n * L)]
+        flat[(n - 1) * L:] = flat[:L]
+        nq = 12
+        qs = [rd(rng.uniform(lo, hi)) for _ in range(nq)]
+        if rng.random() < 0.3:
+            qs[rng.randrange(nq)] = rd(xs[-1] + (xs[-1] - xs[0]) * 0.375)
+        strat = ("spl", True, "per")
+        mk = lambda e, dt="sta": i1_line(S, xs, [n] + trailing, flat, strat, e, dtag=dt)
+        base = len(cases)
+        meta = {"shape": [nq] + trailing, "nq": nq, "special": False, "oob": False}
+        cases.append({"line": mk(e_array(S, [nq], qs, qtag="sta", lay=rng.choice(["c", "rev", "s2"]))), "meta": dict(meta)})
+        cases.append({"line": mk(e_ainto(S, [nq], [nq] + trailing, qs, qtag="sta", blay=rng.choice(gen.LAYS_ND))), "meta": dict(meta)})
+        singles = [(mk(e_single(S, q)), k_) for k_, q in enumerate(qs)]
+        for s_, _k in singles:
+            cases.append({"line": s_, "meta": {"shape": None, "nq": 1, "special": False, "oob": False}})
+        groups.append((base, base + 1, [(base + 2 + j, k_) for j, (_s, k_) in enumerate(singles)], L, nq, None))
     return cases, groups
 
 
